@@ -46,6 +46,7 @@ type PathCase struct {
 	Passive bool     `json:"passive"` // visitor does not touch matched nodes (C05/C20 load accounting)
 	Consume bool     `json:"consume"` // visitor is BytesConsumingMatcher (C06 entity access)
 	MissK   int      `json:"missk"`   // make the k-th block of the target entity unavailable (0 = none)
+	BigFile bool     `json:"bigfile"` // multi-block files are 1 MiB + 5 bytes in default-sized chunks (five leaves)
 	StaleFS bool     `json:"stalefs"` // multi-block files carry a FileSize that covers their first child only
 	Again   bool     `json:"again"`   // the traversal is run twice in this process; the second run is the one recorded
 	Decoy   bool     `json:"decoy"`   // first the same path is walked from the root of ANOTHER tree (same shape and names, other file bytes) through the same link system
@@ -53,6 +54,9 @@ type PathCase struct {
 
 // pathStaleFS is PathCase.StaleFS of the case being built
 var pathStaleFS bool
+
+// pathBigFile is PathCase.BigFile of the case being built
+var pathBigFile bool
 
 // pathSaltOffset shifts the file contents of the tree being built (the decoy tree of a case: same shape and names, other bytes)
 var pathSaltOffset int
@@ -107,7 +111,16 @@ func buildPTree(st *Store, n PNode, path []string, names map[string]string, out 
 		content := fileContent(n.Kind, salt)
 		builder.DefaultLinksPerBlock = 2
 		before := len(st.order)
-		l, sz, err := builder.BuildUnixFSFile(bytes.NewReader(content), "size-3", ls)
+		chunker := "size-3"
+		if pathBigFile && n.Kind == "fileN" {
+			content = make([]byte, 1<<20+5)
+			for i := range content {
+				content[i] = byte(i*7 + i>>11 + salt)
+			}
+			chunker = ""
+			builder.DefaultLinksPerBlock = 174
+		}
+		l, sz, err := builder.BuildUnixFSFile(bytes.NewReader(content), chunker, ls)
 		if err != nil {
 			return nil, err
 		}
@@ -268,6 +281,7 @@ func pathOnce(pc *PathCase) (M, error) {
 	}
 	built := map[string]*builtNode{}
 	pathStaleFS = pc.StaleFS
+	pathBigFile = pc.BigFile
 	root, err := buildPTree(st, pc.Tree, nil, names, built)
 	if err != nil {
 		return nil, fmt.Errorf("%s: %w", pc.ID, err)
@@ -483,7 +497,8 @@ func init() {
 				c.Segs = []string{}
 			}
 			pc := &PathCase{Fam: "path", ID: fmt.Sprintf("path-%d", i), Tree: c.Tree, Segs: c.Segs, Target: c.Target, MP: c.MP,
-				Pres: i % 5, Names: (i / 5) % 8, Entry: "builder", Passive: *passive, Decoy: !*passive && !*consume && i%2 == 0}
+				Pres: i % 5, Names: (i / 5) % 8, Entry: "builder", Passive: *passive, Decoy: !*passive && !*consume && i%2 == 0,
+				BigFile: !*passive && !*consume && (i%16 == 3 || (c.Target == "preload" && i%3 == 1))}
 			if c.Target == "match" && !c.MP && i%3 == 0 {
 				pc.Entry = "selector"
 			}
